@@ -297,6 +297,19 @@ theorem pactSf_mul_clip_le {eps clip : ℚ} (he : 0 ≤ eps) (hc : 0 < clip) (p 
   have := nSteps_nonneg p
   nlinarith
 
+/-- the common top level lies in `[0, 2^p - 1]` -/
+theorem pactTopE_range {eps clip : ℚ} (he : 0 ≤ eps) (hc : 0 < clip) (p : ℕ) :
+    0 ≤ pactTopE eps p clip ∧ pactTopE eps p clip ≤ 2 ^ p - 1 := by
+  have hs := pactSf_nonneg he hc p
+  unfold pactTopE
+  rw [floor_eq]
+  constructor
+  · exact Int.floor_nonneg.mpr (mul_nonneg hs hc.le)
+  · rw [Int.floor_le_iff]
+    have h2 := pactSf_mul_clip_le he hc p
+    rw [nSteps_eq] at h2
+    push_cast; linarith
+
 /-- the floor of the clamped product is the clamped floor: PACT level as an integer clip -/
 theorem pactLevelE_eq_clip {eps clip : ℚ} (he : 0 ≤ eps) (hc : 0 < clip) (p : ℕ) (x : ℚ) :
     pactLevelE eps p clip x = min (max ⌊pactSf eps p clip * x⌋ 0) (pactTopE eps p clip) := by
